@@ -19,7 +19,7 @@ import (
 func init() {
 	simkit.Register(&simkit.Property{
 		ID: "C12", Level: "exploration", Bubble: false, Run: runC12,
-		Rule: "World A: generated histories of check-ins (own key, second key, a key shared by several keypers, a key colliding with a genesis validator; before and after the check-in-update fork), config acceptances and block-seen reports for keyper universes of 3-6 addresses with every threshold. Each ResponseEndBlock.ValidatorUpdates is folded into the REAL tendermint/types.ValidatorSet (UpdateWithChangeSet) and the result compared with a reference computed from the harness ledger (accepted events, code-0 check-ins, block-seen reports). A share of runs instead enumerates pairs of small power maps for DiffPowermaps. Non-trivial = a run with >= 1 validator-set change away from the genesis set; distinct = distinct trace hashes among those.",
+		Rule: "World A: generated histories of check-ins (own key, second key, a key shared by several keypers, a key colliding with a genesis validator, the placeholder validator's own key; before and after the check-in-update fork), config acceptances and block-seen reports for keyper universes of 3-6 addresses with every threshold. Each ResponseEndBlock.ValidatorUpdates is folded into the REAL tendermint/types.ValidatorSet (UpdateWithChangeSet) and the result compared with a reference computed from the harness ledger (accepted events, code-0 check-ins, block-seen reports). A share of runs instead enumerates pairs of small power maps for DiffPowermaps. Non-trivial = a run with >= 1 validator-set change away from the genesis set; distinct = distinct trace hashes among those.",
 		Assumptions: []string{"Tendermint applies ResponseEndBlock.ValidatorUpdates with ValidatorSet.UpdateWithChangeSet (pinned tendermint v0.37.0-rc2) after rejecting negative powers", "DevMode is off"},
 		Real:        []string{"app.ShutterApp", "app.DiffPowermaps/ValidatorUpdates", "tendermint/types.ValidatorSet"},
 		Stub:        []string{"Tendermint consensus, mempool, block store (simtm)"},
